@@ -282,7 +282,7 @@ func (e *Engine) verifyFunc(key string) (ctx *FuncCtx) {
 				st.bound = saved
 			case "requires":
 				v := c.evalSpecAt(st, cl.Expr, fd.Body.Lbrace, specEnv)
-				st.assume(v.S)
+				st.assume(v.forAssume())
 			}
 		}
 		// vacuity guard: the preconditions together must be satisfiable
@@ -531,7 +531,7 @@ func (c *FuncCtx) atCall(st *State, x *ast.CallExpr) {
 					name += fmt.Sprintf(".%d", nth)
 				}
 				c.oblige(st, "assert", name, x.Pos(), v.S, cl.Tags, "at call "+key+": "+cl.Text)
-				st.assume(v.S)
+				st.assume(v.forAssume())
 			}
 		}
 	}
